@@ -83,6 +83,7 @@ func (b *Bus) Attach(mem memory.Memory, name string, start uint32, end uint32) e
 // e.g. if ROM is mapped to 0xC000, then Read(0xC0FF) returns the byte at
 // 0x00FF in that RAM device.
 func (b *Bus) EaRead(a uint32) byte {
+	a &= 0x00ffffff // the address bus is 24 bits wide
 	mem := b.segment[a>>4]
 	if mem == nil {
 		panic(fmt.Errorf("No backend for address 0x%06X index %06x", a, a>>4))
@@ -118,6 +119,7 @@ func (b *Bus) EaRead24_wrap(bank byte, addr uint16) uint32 {
 
 // Write the byte to the device mapped to the given address.
 func (b *Bus) EaWrite(a uint32, value byte) {
+	a &= 0x00ffffff // the address bus is 24 bits wide
 	mem := b.segment[a>>4]
 	if mem == nil {
 		panic(fmt.Errorf("No backend for address 0x%06X index %06x", a, a>>4))
